@@ -10,7 +10,7 @@ from . import astq
 from .closure import node_classes
 from .core import AnalysisError
 from .minieval import Interp, Obj, Raised, Raises
-from .model import Model
+from .model import ClassRef, Model
 
 HELPERS = 'pytableaux.proof.helpers'
 RULES = 'pytableaux.proof.rules'
@@ -519,3 +519,88 @@ def fold_delegation(m: Model):
 
 
 ALL = [fold_nodeconsts, fold_extended_quantifier_targets, fold_filter_cache, fold_world_index, fold_unserial, fold_branch_value_hook, fold_counts, fold_serial_rule]
+
+
+def fold_fair_gate(m: Model, lgs):
+    """Non-starvation of the fairness gate.  Rules whose target producer is gated by `NodeCount.isleast` (the box-type modal
+    rules) postpone a node while another node was applied fewer times.  Postponement must not be for ever: folded over every
+    small state (which (node, world) pairs were applied, hence the counts), the rule offers a target whenever some node of
+    the rule still has an accessible world it was not applied to (and the node it would add is not on the branch)."""
+    import collections
+    import itertools
+    from .bind import bound_class, make_self
+    sites = {}
+    for lg in lgs:
+        for gi, rc in lg.all_group_rules():
+            fn, owner = m.method(rc, '_get_node_targets')
+            if fn is None or not hasattr(fn, 'node'):
+                continue
+            uses = any(isinstance(c, ast.Call) and isinstance(c.func, ast.Attribute) and c.func.attr == 'isleast' for c in ast.walk(fn.node))
+            if not uses:
+                # the gate may sit in a helper method of the same class: look at what the producer calls on self
+                uses = any(isinstance(c, ast.Call) and isinstance(c.func, ast.Attribute) and c.func.attr == 'isleast'
+                           for q, f in astq.all_functions(m.trees[owner.module]) if q.startswith(owner.qualname + '.') for c in ast.walk(f))
+            if uses:
+                sites.setdefault((owner.module, owner.qualname), rc)
+    out, consulted = [], set()
+    for (omod, oqual), rc in sorted(sites.items()):
+        NodeCount, NodesWorlds, WorldIndex, FilterHelper, MaxWorlds, QuitFlag = (Obj(n) for n in ('NodeCount', 'NodesWorlds', 'WorldIndex', 'FilterHelper', 'MaxWorlds', 'QuitFlag'))
+        g = dict(NodeCount=NodeCount, NodesWorlds=NodesWorlds, WorldIndex=WorldIndex, FilterHelper=FilterHelper, MaxWorlds=MaxWorlds, QuitFlag=QuitFlag,
+                 sdwnode=lambda s, d, w: ('sdw', s, d, w), anode=lambda a, b: ('access', a, b), adds=lambda *groups, **kw: dict(adds=groups, **kw),
+                 group=lambda *a: tuple(a), minfloor=lambda floor, it_, default=None: min(list(it_), default=default), Target=dict)
+        it = Interp(g, where=f'{omod.split(".")[-1]}.{oqual} fairness gate', modtree=m.trees[omod])
+        CountC = bound_class(m, it, ClassRef(HELPERS, 'NodeCount'), base=dict, consulted=consulted, only=('min', 'isleast'))
+
+        class N:
+            def __init__(self, name, world):
+                self.name, self.world = name, world
+                self.s = Obj(f'sentence-of-{name}', lhs=f'body-of-{name}')
+
+            def __getitem__(self, k):
+                return {'world': self.world}[k]
+
+            def get(self, k, d=None):
+                return {'world': self.world}.get(k, d)
+
+            def __repr__(self):
+                return self.name
+        for label, spec in (('one node at w0 seeing w1,w2,w3; one node at w3 seeing w4', (('n1', 0, (1, 2, 3)), ('n2', 3, (4,)))),
+                            ('two nodes at w0 seeing w1,w2', (('n1', 0, (1, 2)), ('n2', 0, (1, 2)))),
+                            ('one node at w0 seeing w1,w2; one node at w1 seeing nothing', (('n1', 0, (1, 2)), ('n2', 1, ())))):
+            nodes = [N(n, w) for n, w, _ in spec]
+            access = {}
+            for n, w, seen in spec:
+                access.setdefault(w, set()).update(seen)
+            pairs = [(nd, w2) for nd in nodes for w2 in sorted(access.get(nd.world, ()))]
+            for k in range(len(pairs) + 1):
+                for applied in itertools.combinations(pairs, k):
+                    br = Br('b')
+                    br.has_map = lambda mp: False
+                    br.find = lambda mp: ('found', mp)
+                    counts = CountC()
+                    counts[br] = collections.defaultdict(int)
+                    for nd, _ in applied:
+                        counts[br][nd] += 1
+                    helpers = {NodeCount: counts, NodesWorlds: {br: set(applied)}, WorldIndex: {br: {w: set(ws) for w, ws in access.items()}},
+                               FilterHelper: {br: list(nodes)}, MaxWorlds: Obj('maxworlds', is_exceeded=lambda b: False, is_reached=lambda b: False), QuitFlag: {br: None}}
+                    rule = make_self(m, it, rc, consulted=consulted, extra_ns={'__getitem__': lambda s_, k: s_._helpers[k]},
+                                     _helpers=helpers, negated=None, designation=True, new_negated=bool, new_designation=bool, sentence=lambda nd: nd.s,
+                                     tableau=Obj('tableau'), name=rc.qualname)
+                    fn, _ = m.method(rc, '_get_targets')
+                    targets, err = [], None
+                    try:
+                        for nd in nodes:
+                            targets += it.generate(fn.node, [rule, nd, br])
+                    except Raised as e:
+                        err = e.text
+                    except (TypeError, KeyError, AttributeError, ValueError) as e:
+                        err = f'{type(e).__name__}: {e}'
+                    pending = [p for p in pairs if p not in applied]
+                    ok = err is None and (bool(targets) or not pending)
+                    offered = sorted({(str(t.get('nodes', ('?',))[0]), t.get('world')) for t in targets if isinstance(t, dict)})
+                    ok = ok and all((str(nd), w) in {(str(a), b) for a, b in pending} for nd, w in offered)
+                    out.append((ok, f'{oqual}: {label}; applied {[(str(a), b) for a, b in applied]}',
+                                f'counts {dict((str(a), c) for a, c in counts[br].items())}: the rule offers {offered or "nothing"}' + (f' (error {err})' if err else '')
+                                + f' while {[(str(a), b) for a, b in pending]} are still to be applied -- a postponed node is never taken up again, the open branch is not saturated',
+                                f'{m.relfile(omod)} {oqual}'))
+    return out, sorted(consulted), len(sites)
